@@ -81,9 +81,9 @@ impl<'a> View<'a> {
         for e in &self.out.entries {
             if let Ev::Fault { kind, detail } = &e.ev {
                 if detail == &conn.to_string() {
-                    if kind == "stall-begin" {
+                    if kind == "stall-begin" || kind == "partition-begin" {
                         since = u64::MAX;
-                    } else if kind == "stall-end" {
+                    } else if kind == "stall-end" || kind == "partition-heal" {
                         since = e.t_ms;
                     }
                 }
